@@ -1,15 +1,15 @@
 """C07 -- max_advance is a sound promise."""
-from props.common import other_tasks, contract_tasks, TRUSTED_CORE
+from props.common import other_tasks, contract_tasks, TRUSTED_CORE, SCHED_ASSUMPTIONS
 PROPERTY = "C07"
 def tasks(tier):
     return (contract_tasks("contracts.scheduler", "C07")
             + other_tasks("contracts.closure", "C07", "bounded"))
 TRUSTED_BASE = TRUSTED_CORE
-ASSUMPTIONS = []
-NOT_COVERED = []
-LEVEL_TEXT = 'Function-level contract of get_max_advance (exact characterisation incl. in-flight ancestors, <= until, = until without trigger inputs, frame); the promise invariant PM over whole runs is not yet built.'
-TECHNIQUE = "contract-based deductive verification"
-DESIGN_REF = 'DESIGN.md section 8 (C07)'
-LEVEL_NOTE = 'Trusted: pyvc encoder, time/delay algebra axioms with C08 provenance, static table typing (static_ok), z3/cvc5.'
+ASSUMPTIONS = SCHED_ASSUMPTIONS
+NOT_COVERED = ["the promise as a whole-run statement ('not stepped in (t, m] for an outside reason') needs a history invariant PM over all later schedule_step calls of other simulators; it is NOT built. Decided: the function computing m (exact characterisation: the minimum over triggering ancestors of their next / current step plus distance, capped by until), and the closure it reads by a bounded stand-in", 'triggering_ancestors (cache_triggering_ancestors) by a bounded stand-in only']
+LEVEL_TEXT = 'Function-level contract of get_max_advance (exact characterisation incl. in-flight ancestors, m <= until, m = until without trigger inputs, frame) for all states satisfying the invariant; bounded stand-in for the ancestor closure. The whole-run promise invariant is not built (see not_covered).'
+DESIGN_REF = "DESIGN.md section 8 (C07)"
+LEVEL_NOTE = "Partly decided. Trusted: pyvc encoder, time/delay algebra axioms with C08 provenance, static table typing (static_ok), z3/cvc5. Fixed through this check: F3' (6862ef0)."
+TECHNIQUE = 'contract-based deductive verification (get_max_advance) + bounded stand-in for the ancestor closure'
 CLAIMED = True
-NA_REASON = "check under construction in this round"
+NA_REASON = ""
